@@ -414,7 +414,8 @@ func (g *sgen) readBody() *body {
 		b.kind = "image.ratelimitWait"
 		src, _ := g.srcRef("", "src", false, cs)
 		if g.chance(50, "method") {
-			b.add(`local ok = manifest.head(%s):ratelimitWait(%d, "1ms", "150ms")`, src, g.rateLimitArg())
+			lim := g.rateLimitArg()
+			b.add(`local ok = manifest.head(%s):ratelimitWait(%d, "1ms", %s)`, src, lim, q(rateTimeout(lim)))
 			b.call("manifest.head", "manifest:ratelimitWait")
 		} else {
 			switch g.draw(4, "rlargs") {
@@ -423,7 +424,8 @@ func (g *sgen) readBody() *body {
 			case 1:
 				b.add(`local ok = image.ratelimitWait(%s, %d, "1ms")`, src, 1+g.draw(50, "lim"))
 			default:
-				b.add(`local ok = image.ratelimitWait(%s, %d, "1ms", "150ms")`, src, g.rateLimitArg())
+				lim := g.rateLimitArg()
+				b.add(`local ok = image.ratelimitWait(%s, %d, "1ms", %s)`, src, lim, q(rateTimeout(lim)))
 			}
 			b.call("image.ratelimitWait")
 		}
@@ -677,6 +679,16 @@ func (g *sgen) rateLimitArg() int {
 		return 500
 	}
 	return 1 + g.draw(50, "lim")
+}
+
+// rateTimeout: a limit no host's announcement is below never waits, so its
+// timeout only bounds the HEAD request and is generous; only the limit that
+// does wait (500 against 60 remaining) gets the short one.
+func rateTimeout(limit int) string {
+	if limit >= 500 {
+		return "150ms"
+	}
+	return "30s"
 }
 
 // stmt draws one top-level statement.
